@@ -23,11 +23,11 @@ Print Assumptions inv_history.
 
 (* a non-trivial state satisfying the invariant: three objects, one destroyed, a restart *)
 Definition ex_history : list event :=
-  [ EReq {| rq_who := 0; rq_ver := 12; rq_cont := false; rq_items := [{| i_op := OCreateKeyPair; i_gate := true |}] |};
-    EReq {| rq_who := 1; rq_ver := 20; rq_cont := false; rq_items := [{| i_op := ORegister TCert; i_gate := true |}] |};
+  [ EReq {| rq_who := 0; rq_ver := 12; rq_cont := false; rq_items := [{| i_op := OCreateKeyPair 0; i_gate := true |}] |};
+    EReq {| rq_who := 1; rq_ver := 20; rq_cont := false; rq_items := [{| i_op := ORegister TCert 1; i_gate := true |}] |};
     EReq {| rq_who := 1; rq_ver := 12; rq_cont := false; rq_items := [{| i_op := ODestroy (Some 3); i_gate := true |}] |};
     ERestart;
-    EReq {| rq_who := 2; rq_ver := 12; rq_cont := true; rq_items := [{| i_op := OCreate; i_gate := true |};
+    EReq {| rq_who := 2; rq_ver := 12; rq_cont := true; rq_items := [{| i_op := OCreate 0; i_gate := true |};
                                                                      {| i_op := OAddr AGet None; i_gate := true |}] |} ].
 Example ex_history_state : uids (final_store init_store ex_history) = [1; 2; 4] /\ next_uid (final_store init_store ex_history) = 5.
 Proof. vm_compute. auto. Qed.
@@ -85,7 +85,7 @@ Proof. vm_compute. reflexivity. Qed.
 (* what these theorems exclude: the rowid allocator of a table WITHOUT AUTOINCREMENT (largest uid + 1) hands
    the destroyed newest identifier out again, the persisted counter does not *)
 Example rowid_allocator_would_reuse :
-  let st0 := snd (add_objs 0 [TSym; TSym] init_store) in
+  let st0 := snd (add_objs 0 [(TSym, 0); (TSym, 0)] init_store) in
   let st1 := remove_obj 2 st0 in
   uids st0 = [1; 2] /\ uids st1 = [1] /\ next_of_max st1 = 2 /\ next_uid st1 = 3.
 Proof. exact Proofs.rowid_allocator_would_reuse. Qed.
@@ -141,10 +141,20 @@ Example ex_dead_answers :
   map e_resp (history_entries (remove_obj 3 (final_store init_store (firstn 2 ex_history)))
     [EReq {| rq_who := 1; rq_ver := 12; rq_cont := true;
              rq_items := [{| i_op := OAddr AGet (Some 3); i_gate := true |}; {| i_op := ODestroy (Some 3); i_gate := true |};
-                          {| i_op := OGetWrapped (Some 1) 3; i_gate := true |}; {| i_op := ODeriveKey [3] TSym; i_gate := true |};
-                          {| i_op := OLocate; i_gate := true |}; {| i_op := OCreate; i_gate := true |}] |}])
+                          {| i_op := OGetWrapped (Some 1) 3; i_gate := true |}; {| i_op := ODeriveKey [3] TSym 0; i_gate := true |};
+                          {| i_op := OLocate; i_gate := true |}; {| i_op := OCreate 0; i_gate := true |}] |}])
   = [RNotFound; RNotFound; RWrapNotFound; RNotFound; RLocated [1]; RIssued [4]].
 Proof. vm_compute. reflexivity. Qed.
+
+(* the requester of the Destroy need not be the owner: bob as member of 'custodians' (101) destroys alice's key
+   that is under policy 'team'; afterwards it is dead for its owner too *)
+Example ex_custodian_destroy :
+  let st := snd (add_objs 0 [(TSym, 1); (TSym, 0)] init_store) in
+  fst (step_item 12 101 st None {| i_op := ODestroy (Some 1); i_gate := true |}) = (RDestroyed, remove_obj 1 st) /\
+  fst (fst (step_item 12 101 st None {| i_op := ODestroy (Some 2); i_gate := true |})) = RDenied /\
+  fst (fst (step_item 12 0 (remove_obj 1 st) None {| i_op := OAddr AGet (Some 1); i_gate := true |})) = RNotFound /\
+  fst (fst (step_item 12 0 (remove_obj 1 st) None {| i_op := OLocate; i_gate := true |})) = RLocated [2].
+Proof. vm_compute. auto. Qed.
 
 (* ---------- Destroy leaves every other object alone ---------- *)
 
